@@ -2,6 +2,7 @@ pub mod c01;
 pub mod c02;
 pub mod byz;
 pub mod bind;
+pub mod multidev;
 pub mod c03;
 pub mod c04;
 pub mod c05;
